@@ -682,6 +682,9 @@ def stepLine (s : DState) (line : String) : DState :=
     match modelAllocs op with
     | none => s.divergeK s!"allocs-unknown-op {op}" "-" line
     | some m => if n ≤ m then s else s.fail "C18" "allocs" s!"op={op} shape={t[2]?.getD ""} measured={n} model={m}"
+  else if cmd == "sweep32" then
+    -- summary of the native exhaustive float32 screen; suspicious inputs follow as ordinary `k` lines
+    { s with nKern := s.nKern + 1 }
   else if cmd == "obs" then
     let s := finalizePending s
     { s with obsOff := t[1]? == some "off" }
